@@ -124,6 +124,7 @@ func verifyFunction(l *Loaded, specs *Specs, ct *Contract) (rep *FuncReport, w *
 			}
 		}
 	}
+	w.replay = w.planReplay(fr, exit, res)
 	for i, en := range ct.Ensures {
 		lbl := en.Label
 		if lbl == "" {
@@ -135,6 +136,12 @@ func verifyFunction(l *Loaded, specs *Specs, ct *Contract) (rep *FuncReport, w *
 		}
 		o := w.oblige("ensures", "ensures."+lbl, exit.cond, w.evalBool(env, en.Expr), en.Star, props)
 		o.Pos = en.Line
+		if w.replay != nil {
+			for _, k := range w.replay.order {
+				o.ValNames = append(o.ValNames, k)
+				o.Values = append(o.Values, w.replay.req[k])
+			}
+		}
 	}
 	if ct.ModStated && !ct.ModAll {
 		w.frameObligations(fr, ct, exit, env)
@@ -231,6 +238,17 @@ func (o *Obligation) query(w *World) string {
 		b.WriteString(f)
 		b.WriteByte('\n')
 	}
+	body := w.sc.prefix(o.Mark) + "\n" + o.Goal.S
+	for i, ax := range w.axioms {
+		for _, sy := range ax.syms {
+			if strings.Contains(body, "("+sy+" ") {
+				b.WriteString(ax.text)
+				b.WriteByte('\n')
+				w.assumption(w.axiomSrc[i])
+				break
+			}
+		}
+	}
 	b.WriteString(w.sc.prefix(o.Mark))
 	b.WriteByte('\n')
 	if o.Expect == "sat" {
@@ -298,6 +316,21 @@ func solveAll(w *World, obls []*Obligation, timeoutS, seed int) {
 				}
 				if all {
 					r = SolverResult{Status: "unsat", Solver: r.Solver + "+split", Ms: r.Ms + ms, All: r.All}
+				}
+			}
+			if o.Expect == "unsat" && r.Status != "unsat" && r.Status != "sat" && len(o.Values) > 0 {
+				// candidate counterexample: drop the quantified assumptions
+				// (sound only as a source of inputs to replay on the real code)
+				var keep []string
+				for _, ln := range strings.Split(q, "\n") {
+					if !strings.Contains(ln, "(forall ") {
+						keep = append(keep, ln)
+					}
+				}
+				rr := solve(o.Name+".relaxed", strings.Join(keep, "\n"), o.Values, t, seed, "")
+				if rr.Status == "sat" {
+					r.Output += "\n--- candidate counterexample (quantified assumptions dropped) ---\n" + rr.Output
+					o.Relaxed = &rr
 				}
 			}
 			o.Result = &r
